@@ -106,7 +106,8 @@ func runCheck(repo, prop, tier string, opt Options, verbose bool) int {
 	}
 	results := make([]*FnResult, len(keys))
 	var wg sync.WaitGroup
-	sem := make(chan struct{}, 4)
+	sem := make(chan struct{}, 8)
+	solverSem = make(chan struct{}, opt.Workers)
 	for i, k := range keys {
 		wg.Add(1)
 		sem <- struct{}{}
